@@ -412,6 +412,10 @@ func (d *Driver) FamMarshal(nRandom int) {
 				am = d.S.WithRequired(t, am, d.R)
 			}
 			d.marshalOne(ti, am, fmt.Sprintf("random-%d", i))
+			if i%3 == 0 {
+				// the same contents carrying unknown fields (top level and nested), as left behind by Unmarshal of newer-schema data
+				d.marshalOne(ti, d.S.WithUnknowns(t, am, d.R, 0), fmt.Sprintf("random-%d+unknown", i))
+			}
 		}
 	}
 }
@@ -574,6 +578,7 @@ func Main(types []TypeInfo) {
 	procs := flag.Int("procs", 1, "GOMAXPROCS")
 	scripts := flag.String("scripts", "", "file with TLC-emitted operation scripts (ext family)")
 	maxScripts := flag.Int("maxscripts", 0, "use at most this many scripts (0 = all)")
+	extprop := flag.String("extprop", "C05", "property the extval family records for (C04 | C05 | C06)")
 	flag.Parse()
 	runtime.GOMAXPROCS(*procs)
 	var sel []TypeInfo
@@ -625,6 +630,8 @@ func Main(types []TypeInfo) {
 			d.FamDispatch(*nrand, *G)
 		case "ext":
 			d.FamExt(*scripts, *maxScripts)
+		case "extval":
+			d.FamExtVal(*nrand, *extprop)
 		case "json":
 			d.FamJSON(*nrand)
 		case "":
